@@ -8,8 +8,9 @@ STUBS = "#[kani::stub(crc_any::CRCu32::digest, crate::util::stub_digest)]\n#[kan
 def generate(T, tier):
     G = msggen.MsgGen(T)
     code = []
-    hs = [{"name": "c12::clear", "group": "stub", "tier": "quick",
-           "bounds": "L1: every 1029-byte builder state (data[0]==0xD3, has_run) x {Empty, Corrupt, MsgNotSupported(any)}: state after the call == fresh state"}]
+    hs = [{"name": "c12::clear_%s" % k, "group": "stub", "tier": "quick" if k != "corrupt" else "thorough",
+           "bounds": "L1: every 1029-byte builder state (data[0]==0xD3, has_run) x %s: state after the call == fresh state" % d}
+          for k, d in (("empty", "Message::Empty"), ("corrupt", "Message::Corrupt"), ("unsupported", "MsgNotSupported(any u16)"))]
     byvar = {m["module"]: m for m in T.messages}
     # smallest message that can fail part-way (contains a biased field => OutOfRange after some fields were written)
     cands = []
@@ -62,14 +63,14 @@ def generate(T, tier):
     gen.write_gen("c12_list.rs", "\n".join(code))
     return {
         "harnesses": hs,
-        "groups": {"stub": {"features": ["c12"], "timeout_s": 3000, "kani_args": ["-Z", "stubbing"]}},
+        "groups": {"stub": {"features": ["c12"], "timeout_s": 3000, "max_jobs": 5, "unwindset": [["try_from_fn_erased", 392]], "kani_args": ["-Z", "stubbing"]}},
         "level": "model_checking",
         "functions": ["rtcm_rs::MessageBuilder::{new,build_message,clear_data}", "hooks: MessageBuilder::{verif_from_raw,verif_raw}"],
         "bounds": {"L1": "complete 1029-byte state", "typed": "messages %s with small lists; dirty window of 96 bytes" % [p[0] for p in plan],
                    "induction": "every state reachable after any call satisfies L1's precondition (same_as_fresh asserts has_run and compares data[0]); L1 + L2 give history independence for any number of calls (argument)"},
         "outside": ["typed evidence for large messages (MSM, long lists): the wipe precedes and does not look at the message (L1 is for the full state)"],
         "assumptions": ["CRC arithmetic stubbed (function of the digested slice): equal buffers get equal checksums"],
-        "samples": [{"harness": "c12::clear", "symbolic": {"data": "[u8;1029] any with data[0]=0xD3", "message": "Empty | Corrupt | MsgNotSupported(any)"},
+        "samples": [{"harness": "c12::clear_unsupported", "symbolic": {"data": "[u8;1029] any with data[0]=0xD3", "message": "Empty | Corrupt | MsgNotSupported(any)"},
                      "asserts": "Err(EncodingNotSupported); state == [0xD3, 0, 0, ...] with has_run"}],
         "explanation": "One inductive step from an arbitrary builder state instead of exploring call histories.",
     }
